@@ -65,7 +65,11 @@ type scenario struct {
 	// Greet (serial line): this many ARQ frames follow the CONNECTED report directly (dial: the called station
 	// greets at once; listen: the caller's first frames), before the host's next query is answered.
 	Greet int `json:"greet,omitempty"`
-	CutN int  `json:"cut_n,omitempty"`
+	// Undrained: the TNC never reports an empty buffer for what was written (a link that has stopped moving data);
+	// Close must still disconnect. The library waits for its own 30 s flush time-out first, so the driver's stall
+	// watchdog is given 50 s for that one call.
+	Undrained bool `json:"undrained,omitempty"`
+	CutN      int  `json:"cut_n,omitempty"`
 }
 
 var Check = &vrt.Check{
@@ -112,7 +116,7 @@ var regressClasses = []string{
 	"write-sizes-serial", "write-sizes-tcp", "crcfault-1", "crcfault-2", "crcfault-3", "crcfault-each", "buffer-before-crcfault",
 	"flush-order-serial", "flush-order-tcp", "ptt-order", "close-disconnect-serial", "close-disconnect-tcp",
 	"remote-disconnect", "cut-mid-frame-serial", "cut-mid-frame-tcp", "garbage-serial", "garbage-tcp",
-	"burst-stalled-reader", "listen-serial", "listen-tcp", "offline-start", "empty-frames", "dial-greeting",
+	"burst-stalled-reader", "listen-serial", "listen-tcp", "offline-start", "empty-frames", "dial-greeting", "close-undrained-serial", "close-undrained-tcp",
 }
 
 func plan(seed int64, tier string) []vrt.Case {
